@@ -266,6 +266,12 @@ func (c *sideCtx) sides(v ssa.Value, depth int) sideSet {
 	case *ssa.TypeAssert:
 		out.add(c.sides(x.X, d))
 	case *ssa.Call:
+		if f := x.Common().StaticCallee(); f != nil && rawShortName(f) == "(*strings.Builder).String" && len(x.Common().Args) == 1 {
+			for _, w := range builderWrites(x.Common().Args[0]) {
+				out.add(c.sides(w, d))
+			}
+			break
+		}
 		for _, a := range x.Common().Args {
 			out.add(c.sides(a, d))
 			if el, ok := sliceLitElems(a); ok {
@@ -443,6 +449,18 @@ func sideSitesOf(p *Prog, fn *ssa.Function) []sideSite {
 			switch x := in.(type) {
 			case *ssa.Call:
 				f := x.Common().StaticCallee()
+				if f != nil && rawShortName(f) == "(*strings.Builder).WriteString" && len(x.Common().Args) == 2 {
+					// `b.WriteString(piece)` is `s += piece`: what was collected so far, and the piece
+					sofar := sideSet{}
+					for _, w := range builderWrites(x.Common().Args[0]) {
+						sofar.add(c.sides(w, 0))
+					}
+					piece := c.sides(x.Common().Args[1], 0)
+					if sofar["a"] || sofar["b"] || piece["a"] || piece["b"] {
+						out = append(out, sideSite{fn, "build", x, sofar.String() + " , " + piece.String()})
+					}
+					continue
+				}
 				if f != nil && pkgOfFunc(f) == pkgOfFunc(fn) {
 					if hb := builderHelper(f); len(hb) > 0 && len(f.Params) == len(x.Common().Args) {
 						if usedAsBuildOperand(x) {
